@@ -590,3 +590,34 @@ Section Epochs.
     apply (stack_histories_from mmap g dsz Dr mmap_fresh Hg dsz_ok [] h h Hinv). reflexivity.
   Qed.
 End Epochs.
+
+(** * custom sizes above the allocator's range (candidate finding C12-stack-size-above-1GiB) *)
+(** just above 2^30 (and up to 2^32) the class index is past the end of the free-list array:
+    what myth_create_ex does with such an attribute is an out-of-bounds access, in every state *)
+Lemma stack_above_1GiB_out_of_range : forall mmap gsz st w n,
+  2 ^ 30 < n -> n + 4095 <= 2 ^ 32 ->
+  exists i, stack_get mmap gsz st w n = SOutOfRange i /\ 31 <= i <= 32.
+Proof.
+  intros mmap gsz st w n H1 H2.
+  destruct (round_page_spec n ltac:(lia) ltac:(lia)) as (Hr & _ & _).
+  destruct (size_class_out_of_range (round_page n) ltac:(lia)) as (i & Hc & Hi).
+  exists i. split; [|exact Hi]. unfold stack_get.
+  destruct (n =? 0) eqn:E; [apply Z.eqb_eq in E; lia|].
+  unfold flmalloc. rewrite Hc. reflexivity.
+Qed.
+
+(** beyond 2^32 the 32-bit truncation picks a small class: a request of 4 GiB + 4 KiB is served
+    with a 4 KiB block and a top pointer 4 GiB above it *)
+Lemma stack_4GiB_refuted : forall mmap gsz w,
+  exists top st', stack_get mmap gsz s_init w (2 ^ 32 + 4096) = SOk top st' /\
+    fl_regs (s_fl st') = [(mmap [] 4096, 4096)] /\ top = mmap [] 4096 + (2 ^ 32 + 4096) - 16.
+Proof.
+  intros mmap gsz w. eexists. eexists. split; [|split].
+  - unfold stack_get. change (2 ^ 32 + 4096 =? 0) with false. cbv beta iota.
+    change (round_page (2 ^ 32 + 4096)) with 4294971392.
+    unfold flmalloc. change (size_class 4294971392) with (Class 12 4096).
+    cbn [s_init s_fl fl_init fl_lists fl_pop fl_regs]. change (4096 <? PAGE_SIZE) with false. cbv beta iota.
+    reflexivity.
+  - reflexivity.
+  - reflexivity.
+Qed.
